@@ -123,6 +123,8 @@ class Algebra:
       return self.atom(t)
     if k == 'bcast':
       return self.conv(a[0])
+    if k == 'ext' and a[0] in ('numpy.pi', 'jax.numpy.pi', 'math.pi'):
+      return sp.pi
     if k == 'global' and self.expand_globals and self.ev is not None:
       d = self.ev.global_definition(t)
       if d.k == 'const' and isinstance(d.a[0], (int, float, Fraction)):
